@@ -49,7 +49,23 @@ func catalogue() []frameSpec {
 		mk("regrm", 10, message.GettyRequestTypeRequestSync, nil, regRM),
 		mk("ping+hm", 11, message.GettyRequestTypeHeartbeatRequest, map[string]string{"h": "b"}, message.HeartBeatMessagePing),
 		mk("pong+emptyval", 12, message.GettyRequestTypeHeartbeatResponse, map[string]string{"hk": ""}, message.HeartBeatMessagePong),
+		// frames around and beyond 64 KiB (legal: the default max message length is 102400)
+		mk("breg-65535", 13, message.GettyRequestTypeRequestSync, nil, bigReg(65535)),
+		mk("breg-65536", 14, message.GettyRequestTypeRequestSync, nil, bigReg(65536)),
+		mk("breg-65540", 15, message.GettyRequestTypeRequestSync, map[string]string{"k": "v"}, bigReg(65540)),
+		mk("breg-70107", 16, message.GettyRequestTypeRequestSync, nil, bigReg(70107)),
 	}
+}
+
+// bigReg is a BranchRegisterRequest whose frame (without head map) is exactly total bytes long.
+func bigReg(total int) message.BranchRegisterRequest {
+	// 16 header + 2 type code + xid(2+3) + 1 + resource(2+1) + lockKey(4+n) + appdata(4+2)
+	n := total - (16 + 2 + 5 + 1 + 3 + 4 + 6)
+	key := make([]byte, n)
+	for i := range key {
+		key[i] = "0123456789,;:_abcdef"[i%20]
+	}
+	return message.BranchRegisterRequest{Xid: "x:1", BranchType: branch.BranchTypeAT, ResourceId: "r", LockKey: string(key), ApplicationData: []byte("ad")}
 }
 
 type readRes struct {
@@ -143,13 +159,13 @@ func Run(r *rep.Run) {
 
 	// stream list
 	var streams [][]int
-	for i := range cat {
+	for i := range cat[:14] {
 		streams = append(streams, []int{i})
 	}
 	pairSet := []int{0, 2, 3, 6, 8, 10}
 	if thorough {
 		pairSet = nil
-		for i := range cat {
+		for i := range cat[:14] {
 			pairSet = append(pairSet, i)
 		}
 	}
@@ -170,8 +186,12 @@ func Run(r *rep.Run) {
 		}
 	}
 
+	nSmall := len(streams)
+	for _, bi := range []int{14, 15, 16, 17} {
+		streams = append(streams, []int{bi}, []int{3, bi, 3})
+	}
 	var states, transitions int64
-	for _, st := range streams {
+	for si, st := range streams {
 		var stream []byte
 		var bounds []int // frame start offsets, plus end
 		var names []string
@@ -182,6 +202,38 @@ func Run(r *rep.Run) {
 		}
 		bounds = append(bounds, len(stream))
 		n := len(stream)
+		// received positions: all of them for short streams; for >64 KiB streams every position within 40 bytes of a
+		// frame boundary, of a 64 KiB multiple and of the stream ends, plus a stride (stated, not claimed exhaustive)
+		var recvPos []int
+		if si < nSmall {
+			for p := 1; p <= n; p++ {
+				recvPos = append(recvPos, p)
+			}
+		} else {
+			mark := map[int]bool{}
+			around := func(c int) {
+				for p := c - 40; p <= c+40; p++ {
+					if p >= 1 && p <= n {
+						mark[p] = true
+					}
+				}
+			}
+			for _, bnd := range bounds {
+				around(bnd)
+				around(bnd + 65536)
+				around(bnd + 65535 - 16)
+				around(bnd + 32768)
+			}
+			around(65536)
+			for p := 997; p <= n; p += 997 {
+				mark[p] = true
+			}
+			for p := 1; p <= n; p++ {
+				if mark[p] {
+					recvPos = append(recvPos, p)
+				}
+			}
+		}
 		frameAt := map[int]int{} // start offset -> index in st
 		for i := range st {
 			frameAt[bounds[i]] = i
@@ -199,7 +251,10 @@ func Run(r *rep.Run) {
 			s := frontier[0]
 			frontier = frontier[1:]
 			states++
-			for r2 := s.r + 1; r2 <= n && !bad; r2++ {
+			for _, r2 := range recvPos {
+				if r2 <= s.r || bad {
+					continue
+				}
 				transitions++
 				// the inner loop of handleTCPPackage
 				c := s.c
